@@ -1,24 +1,803 @@
+//! C07 — in-circuit FRI verification agrees with native FRI verification.
+//!
+//! Enumerated (explicit finite lists, see `shapes.rs`): FRI parameter sets {log_blowup 1,2} ×
+//! {log_final_poly_len 0,1,2} × {max_log_arity 1,2,3} × {queries 1,2} × {commit PoW 0,1} ×
+//! {query PoW 0,2} crossed with every admissible multiset of ≤ 3 trace log-heights from {2..5}
+//! and widths {1,2,9}, driven
+//!  (a) through batch-STARK proofs whose tables have those heights (vpe4 fixtures: the FRI
+//!      verifier as it is really used — several commitment rounds, two opening points for traces,
+//!      one for quotient chunks, preprocessed round), MMCS ON, the tallest table always carrying
+//!      preprocessed columns (so no round is shorter than the global maximum: known finding F2);
+//!  (b) through the PCS-level driver `pcs.rs` (commit / open with `TwoAdicFriPcs`, circuit =
+//!      `RecursivePcs::get_challenges_circuit` + `verify_circuit`), four opening-point layouts,
+//!      plus height-1 matrices the STARK path cannot produce.
+//! Per shape: the honest opening; single-element faults (leaf ← leaf+1 mod p; `log_arity` ± 1) of
+//! every leaf under `opening_proof`, every claimed evaluation, every commitment word — either
+//! all leaves, or the first and last leaf of every leaf class per query; and (b only) a
+//! malicious FRI prover: hash- and transcript-consistent proofs with one deviated codeword
+//! position of one commit-phase layer / final-polynomial coefficient / failing PoW witness /
+//! wrong claimed evaluation.
+//! Oracle: native verdict (p3-batch-stark `verify_batch`, p3-fri `TwoAdicFriPcs::verify`) ==
+//! circuit verdict (circuit built for the object's shape with the repository API, run with the
+//! real runner). Either direction of disagreement is a violation.
+
 mod pcs;
-use vpe4::airs::BAir;
-use vpe4::{FriSpec, leaves, path_string};
+mod shapes;
+
+use std::collections::{BTreeMap, BTreeSet};
+use std::sync::Mutex;
+use std::sync::atomic::{AtomicU64, Ordering};
+use std::time::Instant;
+
+use vpcore::rayon::prelude::*;
+use vpcore::serde_json::{Value, json};
+use vpcore::{Ctx, Histo, Report, finish, machinery_error};
+use vpe4::{Fixture, Leaf, LeafKind, Seg, Verdict, leaves, parse_path, path_string, with_leaf};
+
+use crate::pcs::{Dev, PcsCase, PcsShape};
+use crate::shapes::*;
+
+// ------------------------------------------------------------------------------------------
+// the two kinds of subject
+
+trait Subject: Sync {
+    fn name(&self) -> String;
+    fn driver(&self) -> &'static str;
+    fn honest(&self) -> &Value;
+    fn modulus(&self) -> u64;
+    fn native(&self, t: &Value) -> Verdict;
+    fn circuit(&self, t: &Value) -> Verdict;
+    fn circuit_fresh(&self, t: &Value) -> Verdict;
+    fn release(&self);
+    /// size used to pick the smallest replay among the cases of one violation key
+    fn size(&self) -> usize;
+    fn shape_json(&self) -> Value;
+}
+
+struct StarkSubject {
+    shape: StarkShape,
+    fx: Fixture,
+}
+
+impl Subject for StarkSubject {
+    fn name(&self) -> String {
+        self.shape.name()
+    }
+    fn driver(&self) -> &'static str {
+        "stark"
+    }
+    fn honest(&self) -> &Value {
+        &self.fx.honest
+    }
+    fn modulus(&self) -> u64 {
+        self.fx.modulus
+    }
+    fn native(&self, t: &Value) -> Verdict {
+        self.fx.native_verify(t)
+    }
+    fn circuit(&self, t: &Value) -> Verdict {
+        self.fx.circuit_verify(t)
+    }
+    fn circuit_fresh(&self, t: &Value) -> Verdict {
+        self.fx.circuit_verify_fresh(t)
+    }
+    fn release(&self) {
+        self.fx.release_thread_engine()
+    }
+    fn size(&self) -> usize {
+        let p = &self.shape.params;
+        self.shape.tables.iter().map(|(_, h)| 1usize << h).sum::<usize>() * 16
+            + p.num_queries * 8
+            + p.max_log_arity * 4
+            + p.log_final_poly_len * 2
+            + p.commit_pow_bits
+            + p.query_pow_bits
+    }
+    fn shape_json(&self) -> Value {
+        self.shape.to_json()
+    }
+}
+
+impl Subject for PcsCase {
+    fn name(&self) -> String {
+        self.name.clone()
+    }
+    fn driver(&self) -> &'static str {
+        "pcs"
+    }
+    fn honest(&self) -> &Value {
+        &self.honest
+    }
+    fn modulus(&self) -> u64 {
+        pcs::MODULUS
+    }
+    fn native(&self, t: &Value) -> Verdict {
+        self.native_verify(t)
+    }
+    fn circuit(&self, t: &Value) -> Verdict {
+        self.circuit_verify(t)
+    }
+    fn circuit_fresh(&self, t: &Value) -> Verdict {
+        self.circuit_verify_fresh(t)
+    }
+    fn release(&self) {
+        self.release_thread_engine()
+    }
+    fn size(&self) -> usize {
+        let p = &self.shape.params;
+        self.shape.rounds.iter().flatten().map(|m| (1usize << m.log_h) * m.width * if m.two_points { 2 } else { 1 }).sum::<usize>()
+            * 16
+            + p.num_queries * 8
+            + p.max_log_arity * 4
+            + p.log_final_poly_len * 2
+            + p.commit_pow_bits
+            + p.query_pow_bits
+    }
+    fn shape_json(&self) -> Value {
+        self.shape.to_json()
+    }
+}
+
+// ------------------------------------------------------------------------------------------
+// judging
+
+#[derive(Clone, Copy, PartialEq, Eq, Debug)]
+enum Outcome {
+    AgreeReject,
+    BothAccept,
+    NotAProof,
+    /// native accepts, circuit rejects
+    FalseReject,
+    /// native rejects, circuit accepts
+    FalseAccept,
+}
+
+fn direction(o: Outcome) -> &'static str {
+    match o {
+        Outcome::FalseReject => "native_accept_circuit_reject",
+        Outcome::FalseAccept => "native_reject_circuit_accept",
+        _ => "",
+    }
+}
+
+/// A disagreement seen with the cached circuit is re-judged with a circuit built from scratch for
+/// exactly this tree, so the per-skeleton cache can never create a violation.
+fn judge(s: &dyn Subject, tree: &Value, cache_mismatch: &AtomicU64) -> (Outcome, Verdict, Verdict) {
+    let n = s.native(tree);
+    if n.not_a_proof() {
+        return (Outcome::NotAProof, n.clone(), n);
+    }
+    let mut c = s.circuit(tree);
+    if c.not_a_proof() {
+        return (Outcome::NotAProof, n, c);
+    }
+    if n.accepts() != c.accepts() {
+        let fresh = s.circuit_fresh(tree);
+        if fresh.accepts() != c.accepts() {
+            cache_mismatch.fetch_add(1, Ordering::Relaxed);
+        }
+        c = fresh;
+    }
+    let o = match (n.accepts(), c.accepts()) {
+        (true, true) => Outcome::BothAccept,
+        (false, false) => Outcome::AgreeReject,
+        (true, false) => Outcome::FalseReject,
+        (false, true) => Outcome::FalseAccept,
+    };
+    (o, n, c)
+}
+
+// ------------------------------------------------------------------------------------------
+// leaves under test
+
+/// Is this leaf part of the FRI statement / opening proof? (STARK trees also hold public values,
+/// `degree_bits`, preprocessed metadata … which belong to C01 / C15.)
+fn in_scope(driver: &str, l: &Leaf) -> bool {
+    if driver == "pcs" {
+        return true;
+    }
+    let p = path_string(&l.path);
+    p.starts_with("/proof/opening_proof/")
+        || p.starts_with("/proof/opened_values/")
+        || p.starts_with("/proof/commitments/")
+        || p.starts_with("/common/preprocessed/commitment/")
+}
+
+/// Leaf class *per query*: array indices abstracted except the index of the query proof.
+fn class_per_query(path: &[Seg]) -> String {
+    let mut s = String::new();
+    let mut prev_is_queries = false;
+    for seg in path {
+        s.push('/');
+        match seg {
+            Seg::Key(k) => {
+                s.push_str(k);
+                prev_is_queries = k == "query_proofs";
+            }
+            Seg::Idx(i) => {
+                if prev_is_queries {
+                    s.push_str(&i.to_string());
+                } else {
+                    s.push('*');
+                }
+                prev_is_queries = false;
+            }
+        }
+    }
+    s
+}
+
+#[derive(Clone, Copy, PartialEq, Eq, Debug)]
+enum LeafMode {
+    /// first and last leaf of every per-query class
+    Representatives,
+    All,
+}
+
+fn select(all: &[Leaf], driver: &str, mode: LeafMode) -> Vec<usize> {
+    let scoped: Vec<usize> = (0..all.len()).filter(|&i| in_scope(driver, &all[i])).collect();
+    if mode == LeafMode::All {
+        return scoped;
+    }
+    let mut first_last: BTreeMap<String, (usize, usize)> = BTreeMap::new();
+    for &i in &scoped {
+        let k = class_per_query(&all[i].path);
+        first_last.entry(k).and_modify(|e| e.1 = i).or_insert((i, i));
+    }
+    let mut v: BTreeSet<usize> = BTreeSet::new();
+    for (_, (a, b)) in first_last {
+        v.insert(a);
+        v.insert(b);
+    }
+    v.into_iter().collect()
+}
+
+/// leaf ← leaf + 1 (mod p) for field leaves; `log_arity` ← ± 1
+fn fault_values(l: &Leaf, modulus: u64) -> Vec<(&'static str, u64)> {
+    match l.kind {
+        LeafKind::Field => vec![("plus_one", if l.value >= modulus - 1 { 0 } else { l.value + 1 })],
+        LeafKind::Structural => {
+            let mut v = vec![("plus_one", l.value + 1)];
+            if l.value > 0 {
+                v.push(("minus_one", l.value - 1));
+            }
+            v
+        }
+    }
+}
+
+// ------------------------------------------------------------------------------------------
+// bookkeeping
+
+#[derive(Default, Clone)]
+struct ClassRow {
+    evals: u64,
+    native_reject: u64,
+    both_accept: u64,
+    circuit_panic: u64,
+    not_a_proof: u64,
+}
+
+#[derive(Default)]
+struct Totals {
+    evaluations: AtomicU64,
+    nontrivial: AtomicU64,
+    honest: AtomicU64,
+    leaf_faults: AtomicU64,
+    malicious: AtomicU64,
+    malicious_native_reject: AtomicU64,
+    forge_failed: AtomicU64,
+    skipped: AtomicU64,
+    shapes_done: AtomicU64,
+    shapes_skipped: AtomicU64,
+    cache_mismatch: AtomicU64,
+    classes: Mutex<BTreeMap<String, ClassRow>>,
+    schedules: Mutex<BTreeMap<String, u64>>,
+    samples: Mutex<Vec<Value>>,
+    both_accept_samples: Mutex<Vec<Value>>,
+    panics: Mutex<BTreeMap<String, u64>>,
+}
+
+struct Env<'a> {
+    ctx: &'a Ctx,
+    report: &'a Report,
+    verdicts: &'a Histo,
+    /// native rejection reasons of the malicious-prover class (which check caught it)
+    mal_reasons: &'a Histo,
+    totals: &'a Totals,
+}
+
+fn record(env: &Env, s: &dyn Subject, class: &str, what: &str, case: Value, o: Outcome, n: &Verdict, c: &Verdict) {
+    let t = env.totals;
+    t.evaluations.fetch_add(1, Ordering::Relaxed);
+    env.verdicts.add(&format!("{}|{}|{}", s.driver(), n.tag(), c.tag()));
+    {
+        let mut g = t.classes.lock().unwrap();
+        let row = g.entry(format!("{}:{}", s.driver(), class)).or_default();
+        row.evals += 1;
+        match o {
+            Outcome::NotAProof => row.not_a_proof += 1,
+            Outcome::BothAccept => row.both_accept += 1,
+            Outcome::AgreeReject | Outcome::FalseAccept => row.native_reject += 1,
+            Outcome::FalseReject => {}
+        }
+        if c.is_panic() {
+            row.circuit_panic += 1;
+        }
+    }
+    if n.rejects() {
+        t.nontrivial.fetch_add(1, Ordering::Relaxed);
+    }
+    let case_json = || {
+        let mut j = case.clone();
+        j["driver"] = json!(s.driver());
+        j["shape"] = s.shape_json();
+        j["shape_name"] = json!(s.name());
+        j["class"] = json!(class);
+        j["native"] = n.to_json();
+        j["circuit"] = c.to_json();
+        j
+    };
+    match o {
+        Outcome::FalseAccept | Outcome::FalseReject => {
+            // canonical key: driver + fault class + direction + the two verdict kinds; the shape is
+            // NOT part of the key — the smallest violating shape is kept as the replay
+            let key = format!("{}|{}|{}|native={}|circuit={}", s.driver(), class, direction(o), n.tag(), c.tag());
+            env.report.violation_sized(
+                key,
+                format!("{} {}: native {} but circuit {}", s.name(), what, n.tag(), c.tag()),
+                case_json(),
+                s.size(),
+            );
+        }
+        Outcome::BothAccept => {
+            let mut b = t.both_accept_samples.lock().unwrap();
+            if b.len() < 40 && class != "honest" {
+                b.push(case_json());
+            }
+        }
+        Outcome::AgreeReject => {
+            if c.is_panic() || n.is_panic() {
+                // noted, not judged here (C15 owns the no-panic clause)
+                let who = if c.is_panic() { format!("circuit {}", c.tag()) } else { format!("native {}", n.tag()) };
+                *t.panics.lock().unwrap().entry(format!("{} @ {}:{}", who, s.driver(), class)).or_insert(0) += 1;
+            }
+            let mut sm = t.samples.lock().unwrap();
+            if sm.len() < 400 {
+                sm.push(case_json());
+            }
+        }
+        Outcome::NotAProof => {}
+    }
+}
+
+/// Honest object, then the selected leaf faults. Returns false if the honest baseline failed
+/// (reported) so that nothing else is judged for this shape.
+fn sweep_leaves(env: &Env, s: &dyn Subject, mode: LeafMode) -> bool {
+    let t = env.totals;
+    let (o, n, c) = judge(s, s.honest(), &t.cache_mismatch);
+    t.honest.fetch_add(1, Ordering::Relaxed);
+    match o {
+        Outcome::BothAccept => record(env, s, "honest", "honest opening", json!({"honest": true}), o, &n, &c),
+        Outcome::FalseReject => {
+            record(env, s, "honest", "honest opening", json!({"honest": true}), o, &n, &c);
+            return false;
+        }
+        _ => machinery_error(&format!(
+            "{}: honest object not accepted natively (native {}, circuit {})",
+            s.name(),
+            n.tag(),
+            c.tag()
+        )),
+    }
+    let all = leaves(s.honest());
+    for i in select(&all, s.driver(), mode) {
+        let leaf = &all[i];
+        for (fault, nv) in fault_values(leaf, s.modulus()) {
+            if env.ctx.out_of_time() {
+                t.skipped.fetch_add(1, Ordering::Relaxed);
+                continue;
+            }
+            let tree = with_leaf(s.honest(), &leaf.path, nv);
+            let (o, n, c) = judge(s, &tree, &t.cache_mismatch);
+            t.leaf_faults.fetch_add(1, Ordering::Relaxed);
+            let p = path_string(&leaf.path);
+            record(
+                env,
+                s,
+                &leaf.class,
+                &format!("leaf {p} {}→{nv}", leaf.value),
+                json!({"path": p, "fault": fault, "old_value": leaf.value, "new_value": nv}),
+                o,
+                &n,
+                &c,
+            );
+        }
+    }
+    true
+}
+
+fn sweep_malicious(env: &Env, s: &PcsCase, all_positions: bool) {
+    let t = env.totals;
+    for dev in s.deviations(all_positions) {
+        if env.ctx.out_of_time() {
+            t.skipped.fetch_add(1, Ordering::Relaxed);
+            continue;
+        }
+        let tree = match s.forge(&dev) {
+            Ok(tr) => tr,
+            Err(e) => {
+                t.forge_failed.fetch_add(1, Ordering::Relaxed);
+                env.verdicts.add(&format!("forge_failed:{}", e.chars().take(60).collect::<String>()));
+                continue;
+            }
+        };
+        let (o, n, c) = judge(s, &tree, &t.cache_mismatch);
+        t.malicious.fetch_add(1, Ordering::Relaxed);
+        if n.rejects() {
+            t.malicious_native_reject.fetch_add(1, Ordering::Relaxed);
+        }
+        env.mal_reasons.add(&format!("{} -> native {}", dev.class(), n.tag()));
+        record(env, s, &dev.class(), &format!("malicious prover {}", dev.show()), json!({"dev": dev.to_json()}), o, &n, &c);
+    }
+}
+
+fn note_schedule(env: &Env, driver: &str, honest: &Value, prefix: &str) {
+    let la: Vec<u64> = honest
+        .pointer(&format!("{prefix}/query_proofs/0/commit_phase_openings"))
+        .and_then(|v| v.as_array())
+        .map(|a| a.iter().filter_map(|o| o["log_arity"].as_u64()).collect())
+        .unwrap_or_default();
+    *env.totals.schedules.lock().unwrap().entry(format!("{driver}:{la:?}")).or_insert(0) += 1;
+}
+
+fn run_pcs_shape(env: &Env, shape: &PcsShape, mode: LeafMode, all_positions: bool) {
+    if env.ctx.out_of_time() {
+        env.totals.shapes_skipped.fetch_add(1, Ordering::Relaxed);
+        return;
+    }
+    let case = PcsCase::new(shape, env.ctx.seed).unwrap_or_else(|e| machinery_error(&format!("cannot build PCS case: {e}")));
+    note_schedule(env, "pcs", &case.honest, "/proof");
+    if sweep_leaves(env, &case, mode) {
+        sweep_malicious(env, &case, all_positions);
+    }
+    case.release();
+    env.totals.shapes_done.fetch_add(1, Ordering::Relaxed);
+}
+
+fn run_stark_shape(env: &Env, shape: &StarkShape, mode: LeafMode) {
+    if env.ctx.out_of_time() {
+        env.totals.shapes_skipped.fetch_add(1, Ordering::Relaxed);
+        return;
+    }
+    let fx = shape.fixture().unwrap_or_else(|e| machinery_error(&format!("cannot build STARK fixture {}: {e}", shape.name())));
+    let s = StarkSubject { shape: shape.clone(), fx };
+    note_schedule(env, "stark", s.honest(), "/proof/opening_proof");
+    sweep_leaves(env, &s, mode);
+    s.release();
+    env.totals.shapes_done.fetch_add(1, Ordering::Relaxed);
+}
+
+// ------------------------------------------------------------------------------------------
+// replay
+
+fn replay(ctx: &Ctx, path: &std::path::Path) -> ! {
+    let r = vpcore::load_replay(path);
+    let report = Report::new();
+    let cm = AtomicU64::new(0);
+    let driver = r["driver"].as_str().unwrap_or("");
+    let (pcs_case, stark_subject);
+    let s: &dyn Subject = match driver {
+        "pcs" => {
+            let shape = PcsShape::from_json(&r["shape"]).unwrap_or_else(|| machinery_error("replay: bad pcs shape"));
+            pcs_case = PcsCase::new(&shape, ctx.seed).unwrap_or_else(|e| machinery_error(&e));
+            &pcs_case
+        }
+        "stark" => {
+            let shape = StarkShape::from_json(&r["shape"]).unwrap_or_else(|| machinery_error("replay: bad stark shape"));
+            let fx = shape.fixture().unwrap_or_else(|e| machinery_error(&e));
+            stark_subject = StarkSubject { shape, fx };
+            &stark_subject
+        }
+        _ => machinery_error("replay: no driver"),
+    };
+    let tree = if r["honest"].as_bool().unwrap_or(false) {
+        s.honest().clone()
+    } else if !r["dev"].is_null() {
+        let dev = Dev::from_json(&r["dev"]).unwrap_or_else(|| machinery_error("replay: bad deviation"));
+        let shape = PcsShape::from_json(&r["shape"]).unwrap();
+        PcsCase::new(&shape, ctx.seed)
+            .and_then(|c| c.forge(&dev))
+            .unwrap_or_else(|e| machinery_error(&format!("replay: forging failed: {e}")))
+    } else {
+        let p = parse_path(r["path"].as_str().unwrap_or(""));
+        let nv = r["new_value"].as_u64().unwrap_or_else(|| machinery_error("replay: no new_value"));
+        with_leaf(s.honest(), &p, nv)
+    };
+    let (o, n, c) = judge(s, &tree, &cm);
+    let class = r["class"].as_str().unwrap_or("honest");
+    println!("replaying {} {class} -> native {} | circuit {} => {:?}", s.name(), n.tag(), c.tag(), o);
+    if matches!(o, Outcome::FalseAccept | Outcome::FalseReject) {
+        let key = format!("{}|{}|{}|native={}|circuit={}", s.driver(), class, direction(o), n.tag(), c.tag());
+        report.violation(key, format!("native {} but circuit {}", n.tag(), c.tag()), r.clone());
+    }
+    let cov = json!({"evaluations": 1, "distinct_nontrivial": 2, "rule": "replay of one stored case (native + circuit verdict)",
+                     "samples": [{"shape": s.name(), "class": class, "native": n.to_json(), "circuit": c.to_json()}], "replay": true});
+    finish(ctx, cov, vec![], &report)
+}
+
+// ------------------------------------------------------------------------------------------
 
 fn main() {
+    let ctx = Ctx::from_args("C07", "fault_enumeration");
     vpcore::install_quiet_panic_hook();
-    let fs = FriSpec { tag: "b1f1a2q2c1w2", log_blowup: 1, log_final_poly_len: 1, max_log_arity: 2, num_queries: 2, commit_pow_bits: 1, query_pow_bits: 2, cap_height: 0 };
-    let airs = vec![BAir::Mul { degree: 2, rows: 32, reps: 9 }, BAir::Fib, BAir::AddNoNext];
-    let t0 = std::time::Instant::now();
-    let fx = vpe4::families::bb::batch_fixture(airs, "m9_5.fib_3.addnn_2", vec![32, 8, 4], fs).unwrap();
-    println!("{} made in {:?}", fx.name, t0.elapsed());
-    let t0 = std::time::Instant::now();
-    println!("native {:?} {:?}", fx.native_verify(&fx.honest), t0.elapsed());
-    let t0 = std::time::Instant::now();
-    println!("circuit {:?} {:?}", fx.circuit_verify(&fx.honest), t0.elapsed());
-    let t0 = std::time::Instant::now();
-    println!("circuit {:?} {:?}", fx.circuit_verify(&fx.honest), t0.elapsed());
-    let all = leaves(&fx.honest);
-    let mut classes = std::collections::BTreeMap::new();
-    for l in &all { *classes.entry(l.class.clone()).or_insert(0u64) += 1; }
-    println!("{} leaves", all.len());
-    for (k, v) in classes { println!("{v:6} {k}"); }
-    println!("{}", path_string(&all[0].path));
+    if let Some(p) = &ctx.replay {
+        replay(&ctx, &p.clone());
+    }
+    let report = Report::new();
+    let verdicts = Histo::new();
+    let mal_reasons = Histo::new();
+    let totals = Totals::default();
+    let env = Env { ctx: &ctx, report: &report, verdicts: &verdicts, mal_reasons: &mal_reasons, totals: &totals };
+    let quick = ctx.quick();
+    let only = ctx.opt("only").map(|s| s.to_string());
+    let want = |part: &str| only.as_deref().map(|o| o.split(',').any(|x| x == part)).unwrap_or(true);
+
+    let params = all_params();
+    let mixes = all_mixes();
+    let core = core_pairs();
+
+    // ---- shape lists
+    // core: all leaves, all malicious deviations (quick: every fourth core pair, one layout each)
+    let mut pcs_core: Vec<PcsShape> = vec![];
+    let mut stark_core: Vec<StarkShape> = vec![];
+    for (k, (p, mix)) in core.iter().enumerate() {
+        if quick && k % 4 != 0 {
+            continue;
+        }
+        if quick {
+            pcs_core.push(pcs_shape(p, mix, k, k / 4));
+        } else {
+            for layout in 0..N_LAYOUTS {
+                pcs_core.push(pcs_shape(p, mix, k, layout));
+            }
+        }
+        stark_core.push(stark_shape("bb", p, mix, k));
+    }
+    // other field / extension / hash families (the FRI circuit packs caps and siblings differently
+    // for D = 4, D = 5 over a base-field permutation, D = 2 width 8): a few core pairs each
+    let mut stark_families: Vec<StarkShape> = vec![];
+    for (k, (p, mix)) in core.iter().enumerate() {
+        let fam = ["kb", "kbq", "gl"][k % 3];
+        if quick && k % 8 != 1 {
+            continue;
+        }
+        stark_families.push(stark_shape(fam, p, mix, k));
+    }
+
+    // broad sweep over every parameter set × every admissible height mix (4176 pairs).
+    //   PCS level — quick: one layout per pair (rotating), class representatives + reduced deviation set;
+    //               thorough: all four layouts; the rotating one with ALL leaves and ALL deviations,
+    //               the other three with representatives + reduced deviations.
+    //   STARK     — quick: every parameter set × `STARK_PER` mixes (window rotating through the admissible
+    //               mixes, so every mix occurs); thorough: every pair. Class representatives.
+    const STARK_PER: usize = 17;
+    let mut pcs_broad: Vec<(PcsShape, LeafMode, bool)> = vec![];
+    let mut stark_broad: Vec<StarkShape> = vec![];
+    let mut planned_pairs = 0u64;
+    for (pi, p) in params.iter().enumerate() {
+        let adm: Vec<&Vec<usize>> = mixes.iter().filter(|m| admissible(p, m)).collect();
+        planned_pairs += adm.len() as u64;
+        for (mi, mix) in adm.iter().enumerate() {
+            let s = pi * 7 + mi;
+            if quick {
+                pcs_broad.push((pcs_shape(p, mix, s, s), LeafMode::Representatives, false));
+                let off = (mi + adm.len() - (pi * STARK_PER) % adm.len()) % adm.len();
+                if off < STARK_PER {
+                    stark_broad.push(stark_shape("bb", p, mix, s));
+                }
+            } else {
+                for layout in 0..N_LAYOUTS {
+                    if layout == s % N_LAYOUTS {
+                        pcs_broad.push((pcs_shape(p, mix, s, layout), LeafMode::All, true));
+                    } else {
+                        pcs_broad.push((pcs_shape(p, mix, s, layout), LeafMode::Representatives, false));
+                    }
+                }
+                stark_broad.push(stark_shape("bb", p, mix, s));
+            }
+        }
+    }
+    let pcs_extra = pcs_extra_shapes();
+
+    let planned = json!({
+        "parameter_sets": params.len(), "height_mixes": mixes.len(), "admissible_(params,mix)_pairs": planned_pairs,
+        "pcs_core_shapes(all leaves, all deviations)": pcs_core.len(),
+        "stark_core_shapes(all leaves)": stark_core.len(),
+        "stark_other_family_shapes(representatives)": stark_families.len(),
+        "pcs_broad_shapes": pcs_broad.len(),
+        "pcs_broad_shapes_with_all_leaves_and_all_deviations": pcs_broad.iter().filter(|x| x.2).count(),
+        "stark_broad_shapes(representatives)": stark_broad.len(),
+        "pcs_extra_shapes(height-1 matrices)": pcs_extra.len(),
+    });
+    eprintln!("[C07] planned {planned}");
+
+    // ---- sweeps. Core first, so that a slow machine loses breadth at the tail, never the core.
+    let t0 = Instant::now();
+    let mut phase_wall = BTreeMap::new();
+    if want("pcs_core") {
+        pcs_core.par_iter().for_each(|sh| run_pcs_shape(&env, sh, LeafMode::All, true));
+        phase_wall.insert("pcs_core", t0.elapsed().as_secs_f64());
+    }
+    let t1 = Instant::now();
+    if want("stark_core") {
+        stark_core.par_iter().for_each(|sh| run_stark_shape(&env, sh, LeafMode::All));
+        phase_wall.insert("stark_core", t1.elapsed().as_secs_f64());
+    }
+    let t1 = Instant::now();
+    if want("pcs_extra") {
+        pcs_extra.par_iter().for_each(|sh| run_pcs_shape(&env, sh, LeafMode::Representatives, !quick));
+        phase_wall.insert("pcs_extra", t1.elapsed().as_secs_f64());
+    }
+    let t1 = Instant::now();
+    if want("stark_families") {
+        stark_families.par_iter().for_each(|sh| run_stark_shape(&env, sh, LeafMode::Representatives));
+        phase_wall.insert("stark_families", t1.elapsed().as_secs_f64());
+    }
+    let t1 = Instant::now();
+    if want("pcs_broad") {
+        pcs_broad.par_iter().for_each(|(sh, mode, all_pos)| run_pcs_shape(&env, sh, *mode, *all_pos));
+        phase_wall.insert("pcs_broad", t1.elapsed().as_secs_f64());
+    }
+    let t1 = Instant::now();
+    if want("stark_broad") {
+        stark_broad.par_iter().for_each(|sh| run_stark_shape(&env, sh, LeafMode::Representatives));
+        phase_wall.insert("stark_broad", t1.elapsed().as_secs_f64());
+    }
+
+
+    // ---- known-finding probe (one canonical shape, honest opening only): F2 of C01 seen at the
+    // PCS level — a commitment round whose tallest matrix is shorter than the global maximum.
+    let mut f2_probe = json!("not run");
+    if want("probes") && !ctx.out_of_time() {
+        let shape = PcsShape {
+            params: pcs::Params { log_blowup: 1, log_final_poly_len: 0, max_log_arity: 1, num_queries: 1, commit_pow_bits: 0, query_pow_bits: 0 },
+            rounds: vec![
+                vec![pcs::MatSpec { log_h: 3, width: 2, two_points: false }],
+                vec![pcs::MatSpec { log_h: 2, width: 2, two_points: false }],
+            ],
+        };
+        let case = PcsCase::new(&shape, ctx.seed).unwrap_or_else(|e| machinery_error(&format!("cannot build F2 probe: {e}")));
+        let (o, n, c) = judge(&case, &case.honest, &totals.cache_mismatch);
+        totals.honest.fetch_add(1, Ordering::Relaxed);
+        f2_probe = json!({"shape": case.name, "native": n.to_json(), "circuit": c.to_json(), "outcome": format!("{o:?}")});
+        match o {
+            Outcome::BothAccept | Outcome::FalseReject => record(
+                &env,
+                &case,
+                "honest:round_below_global_max_height",
+                "honest opening, second commitment round shorter than the global maximum height",
+                json!({"honest": true}),
+                o,
+                &n,
+                &c,
+            ),
+            _ => machinery_error(&format!("F2 probe: honest object not accepted natively ({})", n.tag())),
+        }
+        case.release();
+    }
+
+    // ---- out-of-scope probes (recorded, never judged): parameters the circuit API does not take.
+    // `FriVerifierParams` has neither `max_log_arity` nor `num_queries`; C07 quantifies over honest
+    // proofs of the SAME parameter set plus single-element faults, so a proof made for another
+    // parameter set is C15's subject (structural / parameter alterations).
+    let mut foreign = vec![];
+    if want("probes") && !ctx.out_of_time() {
+        let base = pcs::Params { log_blowup: 1, log_final_poly_len: 0, max_log_arity: 1, num_queries: 2, commit_pow_bits: 0, query_pow_bits: 0 };
+        let rounds = vec![vec![pcs::MatSpec { log_h: 5, width: 2, two_points: false }]];
+        let verifier_case = PcsCase::new(&PcsShape { params: base.clone(), rounds: rounds.clone() }, ctx.seed)
+            .unwrap_or_else(|e| machinery_error(&e));
+        for (what, pp) in [
+            ("proof made with max_log_arity 3, verifier parameters say 1", pcs::Params { max_log_arity: 3, ..base.clone() }),
+            ("proof made with num_queries 1, verifier parameters say 2", pcs::Params { num_queries: 1, ..base.clone() }),
+        ] {
+            let prover_case = PcsCase::new(&PcsShape { params: pp, rounds: rounds.clone() }, ctx.seed).unwrap_or_else(|e| machinery_error(&e));
+            let n = verifier_case.native_verify(&prover_case.honest);
+            let c = verifier_case.circuit_verify_fresh(&prover_case.honest);
+            foreign.push(json!({"probe": what, "native": n.to_json(), "circuit": c.to_json()}));
+        }
+        verifier_case.release();
+    }
+
+    // ---- evidence
+    let ld = |a: &AtomicU64| a.load(Ordering::Relaxed);
+    let skipped = ld(&totals.skipped) + ld(&totals.shapes_skipped);
+    let classes = totals.classes.lock().unwrap().clone();
+    let class_json: BTreeMap<String, Value> = classes
+        .iter()
+        .map(|(k, r)| (k.clone(), json!([r.evals, r.native_reject, r.both_accept, r.circuit_panic, r.not_a_proof])))
+        .collect();
+    let classes_with_reject = classes.values().filter(|r| r.native_reject > 0).count();
+    let both_accept_total: u64 = classes.iter().filter(|(k, _)| !k.ends_with(":honest")).map(|(_, r)| r.both_accept).sum();
+    // samples: one per (driver, class) first, then fill
+    let mut samples: Vec<Value> = vec![];
+    {
+        let all = totals.samples.lock().unwrap();
+        let mut seen = BTreeSet::new();
+        for s in all.iter() {
+            let k = format!("{}:{}", s["driver"], s["class"]);
+            if seen.insert(k) && samples.len() < 12 {
+                let mut s = s.clone();
+                if let Some(m) = s.as_object_mut() {
+                    m.remove("shape");
+                }
+                samples.push(s);
+            }
+        }
+    }
+    if samples.is_empty() && only.is_none() {
+        machinery_error("no agreed rejection recorded: nothing non-trivial was evaluated");
+    }
+    let both_samples: Vec<Value> = totals
+        .both_accept_samples
+        .lock()
+        .unwrap()
+        .iter()
+        .take(12)
+        .map(|s| {
+            let mut s = s.clone();
+            if let Some(m) = s.as_object_mut() {
+                m.remove("shape");
+            }
+            s
+        })
+        .collect();
+    let cov = json!({
+        "evaluations": ld(&totals.evaluations),
+        "distinct_nontrivial": ld(&totals.nontrivial),
+        "rule": "one evaluation = one object (honest opening, one single-leaf fault of it, or one proof of the malicious FRI prover) \
+                 judged by BOTH the native verifier and the verification circuit; distinct = distinct (shape, leaf path, fault) / \
+                 (shape, deviation); non-trivial = the native verifier REJECTS the object, so the circuit's rejection is a real check \
+                 (objects both sides accept — e.g. a deviated codeword position no query reaches, a PoW witness fault with 0 PoW bits — \
+                 are counted under both_accept)",
+        "exhaustive": skipped == 0 && only.is_none(),
+        "space": "see planned_shapes; per shape: honest + leaf faults (core: every in-scope leaf; other shapes: first and last leaf of every \
+                  leaf class per query; field leaves +1 mod p, log_arity ±1) + PCS-level malicious prover deviations (core: every codeword \
+                  position of every commit-phase layer incl. the last folded vector, every final-poly coefficient, every PoW witness, every \
+                  claimed evaluation; other shapes: 4 positions per layer, first/last column per opening)",
+        "planned_shapes": planned,
+        "shapes_done": ld(&totals.shapes_done),
+        "shapes_skipped_out_of_time": ld(&totals.shapes_skipped),
+        "cases_skipped_out_of_time": ld(&totals.skipped),
+        "honest_objects": ld(&totals.honest),
+        "leaf_faults": ld(&totals.leaf_faults),
+        "malicious_prover_proofs": ld(&totals.malicious),
+        "malicious_prover_proofs_rejected_natively": ld(&totals.malicious_native_reject),
+        "malicious_prover_forge_failed": ld(&totals.forge_failed),
+        "both_accept_non_honest": both_accept_total,
+        "leaf_classes": classes.len(),
+        "leaf_classes_with_native_reject": classes_with_reject,
+        "arity_schedules_seen[driver:log_arities -> shapes]": *totals.schedules.lock().unwrap(),
+        "per_class[evals,native_reject,both_accept,circuit_panic,not_a_proof]": class_json,
+        "verdict_histogram[driver|native|circuit]": verdicts.to_json(),
+        "malicious_prover_native_outcomes": mal_reasons.to_json(),
+        "panics_while_other_side_rejects": *totals.panics.lock().unwrap(),
+        "cached_vs_fresh_circuit_mismatch": ld(&totals.cache_mismatch),
+        "phase_wall_s": phase_wall,
+        "known_finding_probe_F2": f2_probe,
+        "out_of_scope_probes(parameters the circuit API does not take; recorded, not judged)": foreign,
+        "both_accept_samples": both_samples,
+        "samples": samples,
+    });
+    let assumptions = vec![
+        "native Plonky3 0.6.3 verifiers are the specification: p3-batch-stark verify_batch for the STARK path, <TwoAdicFriPcs as Pcs>::verify (p3_fri::verifier::verify_fri) for the PCS-level path".to_string(),
+        "single faults only, fault value +1 mod p (log_arity ±1); malicious prover deviations are +1 of one element".to_string(),
+        "circuit verdict = runner outcome on honestly packed inputs (pack_values / Recursive::get_values + set_fri_mmcs_private_data of the object); satisfiability by other private witnesses is C04/C06 territory".to_string(),
+        "PCS-level circuit = the PCS part of verify_batch_circuit re-wired by the harness (observe commitments, sample zeta, observe claimed evaluations, get_challenges_circuit, verify_circuit); mis-wiring would show as a rejected honest opening".to_string(),
+        "MMCS verification is ON everywhere; shapes with a commitment round shorter than the global maximum height (known finding F2 of C01) are not enumerated: the tallest STARK table always carries preprocessed columns, every PCS-level round contains the tallest matrix".to_string(),
+        "the re-implemented (malicious-capable) prover is validated per shape: without a deviation it reproduces p3-fri's proof bit for bit; with one, only the native verifier's verdict counts".to_string(),
+        "verification circuits are cached per tree skeleton (lengths + log_arity values); every disagreement is re-judged with a freshly built circuit".to_string(),
+        "BabyBear D4 Poseidon2-W16 for the parameter sweep; KoalaBear D4, KoalaBear quintic (D1 permutation) and Goldilocks D2 W8 on core shapes only; cap height 0".to_string(),
+    ];
+    finish(&ctx, cov, assumptions, &report)
 }
